@@ -49,7 +49,7 @@ pub fn registry() -> Vec<Engine> {
         Engine { name: "hash", run: run_hash, hang_allowance_s: 20 },
         Engine { name: "hashlong", run: hashlong::run, hang_allowance_s: 240 },
         Engine { name: "hashlong4g", run: hashlong::run_4g, hang_allowance_s: 240 },
-        Engine { name: "frost", run: run_frost, hang_allowance_s: 60 },
+        Engine { name: "frost", run: run_frost, hang_allowance_s: 120 },
         Engine { name: "lms", run: run_lms, hang_allowance_s: 90 },
         Engine { name: "exchange", run: exchange::run, hang_allowance_s: 40 },
         Engine { name: "apitrace", run: apitrace::run, hang_allowance_s: 20 },
